@@ -1,4 +1,5 @@
-P('C17', shards=16, fuzz=[('FuzzResolve', 60)],
+P('C17', shards=16,
+  passes=[{'race': False, 'run': '^(TestRegression|TestExhaustive|TestGenerated)$'}, {'race': True, 'run': '^TestConcurrentCallers$'}], fuzz=[('FuzzResolve', 60)],
   technique='property-based testing (rapid) + exhaustive small-scope enumeration + native coverage-guided fuzzing; oracle: lexical containment and join identity',
   text='Every generated (base, url path) pair is resolved by the real ResolveUrlPath and judged by an independent lexical '
        'containment oracle and the join identity; all url paths of length <= 8 over {/ . a \\} x 14 bases are enumerated completely, '
